@@ -7,6 +7,9 @@ CONSTANTS
   Texts <- ETexts
   Valid <- ETexts
   HashOf <- EHash
+  ImplHash <- EHash
+  AltHashes <- NoAlt
+  CanonOf <- NoCanon
   WrongHashes <- Wrong1
   Kinds <- LruOnly
   Caps <- Caps123
